@@ -609,7 +609,7 @@ def eng2(ctx: Ctx) -> None:
         pops = [c for c in ast.walk(pr[0]) if isinstance(c, ast.Call) and norm(c.func) == "to_unwrap.popleft"]
         if len(cmpn) == 1 and len(pops) == 1 and any(nonempty_of(c) == "to_unwrap" for c in conj):
             txt = norm(cmpn[0]) if norm(cmpn[0].left).startswith("to_unwrap") else flip_compare(cmpn[0])
-            if txt == "to_unwrap[0][2] >= depth":
+            if txt in ("to_unwrap[0][2] >= depth", "to_unwrap[0].depth >= depth"):
                 ctx.R.ok("ENG-2", "replace: drop queued items whose depth >= the frame's depth (its callees), nothing outward")
             else:
                 ctx.R.fail("ENG-2", mod, pr[0], f"replace/prune must remove exactly the queued items at depth >= the elaborated frame's depth; the loop tests `{txt}`", construct="prune-by-depth loop")
@@ -825,15 +825,26 @@ def ctx_rules(ctx: Ctx) -> None:
                 ctx.R.fail("CTX-2", mod, reb[0], f"after the manager is replaced, {cvar}.{field} must be reset to {val} before re-elaboration: "
                            "otherwise the outer manager's " + field + " leaks onto the inner one", construct=f"{cvar}.{field} = {val}")
     # CTX-3 exits
+    def leaves(st: ast.stmt) -> bool:
+        # `break`, or `return` (the loop is the last thing the function does with the context)
+        return isinstance(st, ast.Break) or (isinstance(st, ast.Return) and st.value is None)
     none_if = [s for s in loop.body if isinstance(s, ast.If) and norm(s.test) == f"{rvar} is None"]
-    if len(none_if) == 1 and isinstance(none_if[0].body[-1], ast.Break):
+    if len(none_if) == 1 and leaves(none_if[0].body[-1]):
         ctx.R.ok("CTX-3", "None result leaves the loop")
+    elif len(none_if) == 1:
+        ctx.R.fail("CTX-3", mod, none_if[0], "a None result of unwrap_context must stop the loop", construct="None -> break")
     else:
-        ctx.R.fail("CTX-3", mod, loop, "a None result of unwrap_context must stop the loop", construct="None -> break")
+        tests_on_r = [s for s in ast.walk(loop) if isinstance(s, ast.If) and rvar in norm(s.test)]
+        falsy = [s for s in tests_on_r if norm(s.test) in (f"not {rvar}", rvar)]
+        if falsy:
+            ctx.R.fail("CTX-3", mod, falsy[0], f"the result of unwrap_context is tested for truthiness (`{norm(falsy[0].test)}`): a falsy manager (e.g. one with __len__ == 0) is treated like None / PRUNE "
+                       "instead of replacing the outer manager", construct="None -> break")
+        else:
+            ctx.R.undecided("CTX-3", "no `inner_mgr is None` test found in the loop")
     pr_if = [s for s in loop.body if isinstance(s, ast.If) and norm(s.test) in (f"{rvar} == PRUNE", f"{rvar} == ()", f"{rvar} is PRUNE", f"PRUNE == {rvar}")]
     if len(pr_if) == 1:
         b = [norm(x) for x in pr_if[0].body]
-        if f"{cvar}.hide = True" in b and isinstance(pr_if[0].body[-1], ast.Break) and b.index(f"{cvar}.hide = True") < len(b) - 1:
+        if f"{cvar}.hide = True" in b and leaves(pr_if[0].body[-1]) and b.index(f"{cvar}.hide = True") < len(b) - 1:
             ctx.R.ok("CTX-3", "PRUNE marks the context hidden and leaves the loop")
         else:
             ctx.R.fail("CTX-3", mod, pr_if[0], "PRUNE must set context.hide = True and then stop: without the break `()` becomes context.obj")
@@ -841,15 +852,29 @@ def ctx_rules(ctx: Ctx) -> None:
         if reb and pr_if[0].lineno > reb[0].lineno:
             ctx.R.fail("CTX-3", mod, pr_if[0], "PRUNE must be tested before the result is installed as the new manager")
     else:
-        ctx.R.fail("CTX-3", mod, loop, "no PRUNE test on the unwrap_context result", construct="PRUNE -> hide, break")
+        hides = [s for s in ast.walk(loop) if isinstance(s, ast.Assign) and norm(s) == f"{cvar}.hide = True"]
+        if hides:
+            ctx.R.undecided("CTX-3", "PRUNE handling present but its test is not recognised")
+        else:
+            ctx.R.fail("CTX-3", mod, loop, "no PRUNE test on the unwrap_context result: PRUNE never hides the context", construct="PRUNE -> hide, break")
     # bounded by literal, else raises
+    from ..util import resolve_const
     it = loop.iter
-    if isinstance(it, ast.Call) and norm(it.func) == "range" and len(it.args) == 1 and isinstance(it.args[0], ast.Constant) and it.args[0].value == 100:
+    okb, bound = (False, None)
+    if isinstance(it, ast.Call) and norm(it.func) == "range" and len(it.args) == 1:
+        okb, bound = resolve_const(mod, loop, it.args[0])
+    if okb and bound == 100:
         ctx.R.ok("CTX-3", "loop bounded by range(100)")
+    elif okb:
+        ctx.R.fail("CTX-3", mod, loop, f"the unwrap loop must be bounded by the documented 100 steps, it is bounded by {bound}", construct=norm(it))
     else:
-        ctx.R.fail("CTX-3", mod, loop, "the unwrap loop must be bounded by the documented 100 steps", construct=norm(it))
+        ctx.R.undecided("CTX-3", f"cannot resolve the bound of `{norm(it)}`")
+    exits_by_return = all(isinstance(x, ast.Return) for x in ast.walk(loop) if isinstance(x, (ast.Break, ast.Return))) and any(isinstance(x, ast.Return) for x in ast.walk(loop))
+    after_loop = fn.body[fn.body.index(loop) + 1:]
     if loop.orelse and isinstance(loop.orelse[-1], ast.Raise) and "RuntimeError" in norm(loop.orelse[-1]):
         ctx.R.ok("CTX-3", "exhausting the bound raises RuntimeError (reported through Stack.error by CONT-1)")
+    elif exits_by_return and after_loop and isinstance(after_loop[-1], ast.Raise):
+        ctx.R.ok("CTX-3", "exhausting the bound raises RuntimeError (every normal exit of the loop returns; the code after it raises)")
     else:
         ctx.R.fail("CTX-3", mod, loop, "exhausting the bound must raise (an error, not a silent acceptance of a cycle)", construct="for-else raise")
     # CTX-4 self-push outside an extraction
